@@ -138,13 +138,32 @@ Example reading_here :
   filter (visible_failure_null (data_shape plan)) (sites plan) = visible_nulls plan.
 Proof. reflexivity. Qed.
 
-(** a promise fulfilled before its resolver returns (outside the theorems, inside the model and the
-    correspondence check): { a } with a: Int a prefilled promise finishes without an idle round *)
+(** a promise fulfilled before its resolver returns (tag >= pre_base; round 4: inside the theorems):
+    { a } with a: Int a prefilled promise finishes without an idle round, under any handler *)
 Example prefilled_needs_no_idle :
-  exists r, run (with_prefill fixed_flags (fun _ => true)) (fun _ _ => []) Query 1 3
-                [(key_a, FP (Some 0) false (Some (VLeaf 5)))] = Done r /\
+  exists r, run fixed_flags (fun _ _ => []) Query 1 3
+                [(key_a, FP (Some pre_base) false (Some (VLeaf 5)))] = Done r /\
             r_rounds r = 0%nat /\ r_promises r = 1%nat /\ r_data r = Some (JObj [(key_a, JInt 5)]).
 Proof. eexists. split; [vm_compute; reflexivity|]. repeat split. Qed.
+
+(** a prefilled promise next to an ordinary one, a failing prefilled promise beneath a non-null
+    type inside: the main theorem applies, one idle round *)
+Definition plan_pre : selset :=
+  [ (key_a, FP (Some (pre_base + 0)) false (Some (VObj [ (kx, FP (Some (pre_base + 1)) true None);
+                                                         (ky, FP (Some 2) false (Some (VLeaf 2))) ])));
+    (key_b, FP (Some 3) false (Some (VLeaf 3))) ].
+Example prefilled_conforms :
+  exists r, run fixed_flags (sigma_ranks [0; 0; 0; 0]%nat) Query 4 4 plan_pre = Done r /\
+            conforms plan_pre (r_data r) (r_errors r) /\
+            r_data r = Some (JObj [(key_a, JNull); (key_b, JInt 3)]) /\ r_rounds r = 1%nat /\ r_promises r = 4%nat.
+Proof.
+  destruct (run_conforms Query (sigma_ranks [0; 0; 0; 0]%nat) 4 4 plan_pre (sigma_ranks_fair _)) as (r & E & C & _).
+  - vm_compute. repeat constructor.
+  - vm_compute. repeat constructor.
+  - exists r. split; auto. split; auto.
+    assert (R : run fixed_flags (sigma_ranks [0; 0; 0; 0]%nat) Query 4 4 plan_pre = Done r) by exact E.
+    vm_compute in R. injection R as <-. repeat split.
+Qed.
 
 (** round 3.  The bridge to C01 on C01's own example (a schema with an interface, a union and
     [Int!]!; a document with a merged field, a named fragment, a fragment on an abstract type, an
